@@ -680,3 +680,11 @@ def d8(cx: Cx, ob: Ob) -> None:
                     witness="a mapping with one unknown name next to applicable ones: PrefixStandardizationError, nothing is applied",
                     detail=f"strict-lookup:{nm}",
                 )
+
+
+@obligation("C12-X4", "'return a converter': remap_uri_prefixes and rewire hand the re-pointed records to the strict constructor, which must reject exactly the record sets in which a name is claimed by two records - both duplicate detectors compare by exact equality over all pairs of DIFFERENT records (shared with C04-D1/D2)", floor=4)
+def x4(cx: Cx, ob: Ob) -> None:
+    from .c04 import d1 as c04_order, d2 as c04_matrix
+
+    c04_order(cx, ob)
+    c04_matrix(cx, ob)
